@@ -162,6 +162,19 @@ func runC14(c *Check) {
 			res := gateWalkOpts(p, fp, full, nil, archSucc, nil)
 			res2 := gateWalkOpts(p, fp, q4, nil, archSucc, nil)
 			c.Ob("R14.3", "archival side removes Q4 only", !res.Reached && res2.Reached, p.Pos(fp.Pos()), "on the archival side RemoveQ4 is reached and RemoveODSQ4 is not", res.Witness...)
+			// pruning a header always asks the store to remove: the store decides what exists (files without a
+			// height link - a crash before linking - are removed by hash); a shortcut that skips the call
+			// reports a block as pruned that is still on disk
+			anyRm := map[*ssa.BasicBlock]bool{}
+			for b := range full {
+				anyRm[b] = true
+			}
+			for b := range q4 {
+				anyRm[b] = true
+			}
+			succ := blocksOfReturns(successReturns(fp))
+			res3 := gateWalkOpts(p, fp, minusBarrier(succ, anyRm), nil, nil, anyRm)
+			c.Ob("R14.3", "Prune always reaches a removal", !res3.Reached, p.Pos(fp.Pos()), "every success return of full.ShareAvailability.Prune passes RemoveODSQ4 or RemoveQ4", res3.Witness...)
 		}
 	}
 	if rq := p.Func("store", "Store", "removeQ4"); rq != nil {
